@@ -245,6 +245,17 @@ fn exec_w<W: BitArray + Default>(t: &BackendTrace, ctx: &mut Ctx) -> Result<(), 
                 if got != m.pos {
                     viol!(ctx, "remaining-stack", "remaining (stack) = {} but exactly {} reads will succeed", got, m.pos);
                 }
+                let ex: bool = match &obj {
+                    Obj::Vec(v) => BoundedReadWords::<W, Stack>::is_exhausted(v),
+                    Obj::Small(v) => BoundedReadWords::<W, Stack>::is_exhausted(v),
+                    Obj::Cur(c) => BoundedReadWords::<W, Stack>::is_exhausted(c),
+                    Obj::Rev(c) => BoundedReadWords::<W, Stack>::is_exhausted(c),
+                    Obj::CurBox(c) => BoundedReadWords::<W, Stack>::is_exhausted(c),
+                    Obj::RevBox(c) => BoundedReadWords::<W, Stack>::is_exhausted(c),
+                };
+                if ex != (m.pos == 0) {
+                    viol!(ctx, "is-exhausted", "is_exhausted (stack) = {} but exactly {} reads will succeed", ex, m.pos);
+                }
             }
             BOp::RemainingQueue => {
                 let got: Option<usize> = match &obj {
@@ -258,6 +269,16 @@ fn exec_w<W: BitArray + Default>(t: &BackendTrace, ctx: &mut Ctx) -> Result<(), 
                 ctx.stats.hit("op-remaining");
                 if got != m.buf.len() - m.pos {
                     viol!(ctx, "remaining-queue", "remaining (queue) = {} but exactly {} reads will succeed", got, m.buf.len() - m.pos);
+                }
+                let ex: bool = match &obj {
+                    Obj::Cur(c) => BoundedReadWords::<W, Queue>::is_exhausted(c),
+                    Obj::Rev(c) => BoundedReadWords::<W, Queue>::is_exhausted(c),
+                    Obj::CurBox(c) => BoundedReadWords::<W, Queue>::is_exhausted(c),
+                    Obj::RevBox(c) => BoundedReadWords::<W, Queue>::is_exhausted(c),
+                    _ => unreachable!(),
+                };
+                if ex != (m.pos >= m.buf.len()) {
+                    viol!(ctx, "is-exhausted", "is_exhausted (queue) = {} but exactly {} reads will succeed", ex, m.buf.len() - m.pos);
                 }
             }
             BOp::SpaceLeft => {
@@ -390,9 +411,33 @@ fn exec_w<W: BitArray + Default>(t: &BackendTrace, ctx: &mut Ctx) -> Result<(), 
             }
             BOp::MutViewWrite(w) => {
                 let word: W = w_from(*w);
+                // two routes to a cursor over the same buffer as `&mut [W]`: `as_mut_view()` and
+                // `Cursor::new_at_pos_mut(&mut buf[..], pos)` (chosen by the word's parity)
+                macro_rules! via_mut {
+                    ($c:expr) => {{
+                        if *w & 1 == 0 {
+                            Some($c.as_mut_view().write(word).is_ok())
+                        } else {
+                            let pos = $c.pos();
+                            let buf = $c.buf_mut();
+                            {
+                                // a cursor at the write end of a mutable slice: full, top of stack = last word
+                                let mut end = Cursor::<W, &mut [W]>::new_at_write_end_mut(&mut buf[..]);
+                                let top = ReadWords::<W, Stack>::read(&mut end).unwrap().map(w_to);
+                                if top != m.buf.last().cloned() {
+                                    viol!(ctx, "mut-slice-cursor", "new_at_write_end_mut: stack read {:x?}, last word of the buffer {:x?}", top, m.buf.last());
+                                }
+                            }
+                            match Cursor::<W, &mut [W]>::new_at_pos_mut(&mut buf[..], pos) {
+                                Ok(mut cur) => Some(cur.write(word).is_ok()),
+                                Err(()) => { viol!(ctx, "mut-slice-cursor", "new_at_pos_mut refused position {} of {}", pos, m.buf.len()); }
+                            }
+                        }
+                    }};
+                }
                 let res: Option<bool> = match &mut obj {
-                    Obj::Cur(c) => Some(c.as_mut_view().write(word).is_ok()),
-                    Obj::CurBox(c) => Some(c.as_mut_view().write(word).is_ok()),
+                    Obj::Cur(c) => via_mut!(c),
+                    Obj::CurBox(c) => via_mut!(c),
                     _ => None,
                 };
                 let Some(ok) = res else { ctx.stats.hit("skipped-op"); continue };
